@@ -57,7 +57,7 @@ try:
     ok = ('124 passed' in ran['suite_mutant'] and '16 failed' in ran['suite_mutant'] and ran['demo_unchanged']['rc'] == 0
           and ran['demo_mutant']['rc'] != 0)
     ran['confirmed'] = ok
-    caught = results['quick']['rc'] == 1
+    caught = results['quick']['rc'] == 1 and any(l.startswith('VIOLATION') for l in results['quick']['lines'])
     ran['caught_by_quick'] = caught
     print(json.dumps(ran, indent=1)[:3000])
     if ok:
